@@ -13,7 +13,7 @@ U2 == <<"u", "2">>
 P == <<"p">>
 Q == <<"q">>
 ElemQ == {[pre |-> <<>>, lo |-> <<"a">>], [pre |-> P, lo |-> <<"a">>], [pre |-> Q, lo |-> <<"b">>]}
-DeclSets == {<<>>, <<B(P, U1)>>, <<B(<<>>, U1)>>, <<B(<<>>, <<>>)>>, <<B(P, U2)>>, <<B(Q, U1), B(<<>>, U2)>>}
+DeclSets == {<<>>, <<B(P, U1)>>, <<B(<<>>, U1)>>, <<B(<<>>, <<>>)>>, <<B(P, U2)>>, <<B(Q, U1), B(<<>>, U2)>>, <<B(XmlPre, XmlUri), B(P, U1)>>}
 AttrSets == {<<>>, <<[pre |-> <<>>, lo |-> <<"x">>, v |-> <<"1">>]>>, <<[pre |-> P, lo |-> <<"x">>, v |-> <<"a", "sp", "<">>], [pre |-> <<>>, lo |-> <<"y">>, v |-> <<>>]>>}
 CharItems == {[k |-> "chars", v |-> <<"t">>, how |-> "plain"], [k |-> "chars", v |-> <<"<", "c", "&">>, how |-> "cdata"],
               [k |-> "chars", v |-> <<"&", "w2">>, how |-> "ref"], [k |-> "chars", v |-> <<"sp", "nl">>, how |-> "plain"]}
@@ -45,10 +45,12 @@ QB == [pre |-> Q, lo |-> <<"b">>]
 X1 == <<[pre |-> <<>>, lo |-> <<"x">>, v |-> <<"1">>]>>
 PX == <<[pre |-> P, lo |-> <<"x">>, v |-> <<"a", "sp", "<">>], [pre |-> <<>>, lo |-> <<"y">>, v |-> <<>>]>>
 StartTags == IF ItemPool = "starts" THEN   \* nesting chains: only what matters for namespace scoping
-               { <<A_, <<>>, <<>>>>, <<A_, <<B(<<>>, U1)>>, <<>>>>, <<A_, <<B(<<>>, <<>>)>>, <<>>>>, <<PA, <<B(P, U1)>>, <<>>>> }
+               { <<A_, <<>>, <<>>>>, <<A_, <<B(<<>>, U1)>>, <<>>>>, <<A_, <<B(<<>>, <<>>)>>, <<>>>>, <<PA, <<B(P, U1)>>, <<>>>>,
+                 <<A_, <<B(XmlPre, XmlUri)>>, <<>>>> }   \* the xml prefix declared explicitly (legal, and a no-op)
              ELSE IF FullProduct THEN {<<q, ds, as>> : q \in ElemQ, ds \in DeclSets, as \in AttrSets}
              ELSE { <<A_, <<>>, <<>>>>, <<A_, <<B(<<>>, U1)>>, X1>>, <<PA, <<B(P, U1)>>, PX>>, <<A_, <<B(<<>>, <<>>)>>, <<>>>>,
-                    <<PA, <<B(P, U2)>>, <<>>>>, <<QB, <<B(Q, U1), B(<<>>, U2)>>, X1>>, <<A_, <<B(P, U1)>>, <<>>>>, <<PA, <<>>, X1>> }
+                    <<PA, <<B(P, U2)>>, <<>>>>, <<QB, <<B(Q, U1), B(<<>>, U2)>>, X1>>, <<A_, <<B(P, U1)>>, <<>>>>, <<PA, <<>>, X1>>,
+                    <<A_, <<B(XmlPre, XmlUri), B(P, U1)>>, <<[pre |-> XmlPre, lo |-> <<"l","a","n","g">>, v |-> <<"e","n">>]>>>> }
 Next == \/ \E t \in StartTags : Start(t[1], t[2], t[3])
         \/ End \/ (ItemPool = "all" /\ (\E c \in CharItems : Chars(c) \/ \E o \in Others : Other(o)))
 
